@@ -299,7 +299,7 @@ Proof.
     repeat dmatch H; try (inv H; exact Q).
     unfold drop_off_trip in H. repeat dmatch H. inv H. eapply acct_trans; [exact Q|].
     eapply (acct_same a _ [_]); try reflexivity. constructor; [exact I|constructor].
-  - eapply charge_acct; eauto.
+  - unfold charge_unless_full in H. repeat dmatch H; try (inv H; apply acct_refl); eapply charge_acct; eauto.
   - repeat dmatch H. intros K SK. assert (Hid : v_id v = vid) by (apply K; assumption). revert K SK.
     destruct (mech_idle_books m v (dt s)) as (Ei & Eo & Eg & Eb). cbv zeta in Ei, Eo, Eg, Eb.
     eapply (modv_acct s _ s' v H); try assumption. rewrite Ei, Hid. assumption.
